@@ -188,6 +188,47 @@ _invalid_cases = st.fixed_dictionaries(dict(
     method=st.sampled_from(["nearest", "", "Linear", "midpoint"]),
 ))
 
+def _large_cases(tier):
+    sizes = [(200_001, 37), (400_000, 400_000)] if tier == "quick" else \
+        [(200_001, 37), (400_000, 400_000), (1_000_003, 5), (7, 650_000), (300_000, 300_001)]
+    for k, (n, m) in enumerate(sizes):
+        for ep, en in ((0, 0), (3, 2)):
+            yield dict(n=n, m=m, ep=ep, en=en, k=k)
+
+
+def check_large(case):
+    """Round trip within one sample for very large classes: one sample is then 1e-6 of the
+    population, so tolerances that are harmless for small inputs become visible."""
+    from score_analysis import Scores
+
+    n, m, ep, en = case["n"], case["m"], case["ep"], case["en"]
+    pos = 0.5 + 2.0 * np.arange(n)
+    neg = 1.25 + 2.0 * np.arange(m) - (m - n)  # overlapping ranges, all values distinct
+    for sc, ec in CONFIGS:
+        o = Scores(pos, neg, nb_easy_pos=ep, nb_easy_neg=en, score_class=sc, equal_class=ec, is_sorted=True)
+        for mt in METRICS:
+            Nm = population(mt, n, m, ep, en)
+            lo_f, hi_f = achievable_range(mt, n, m, ep, en)
+            lo, hi = float(lo_f), float(hi_f)
+            ks = [0, 1, 2, 3, 5, 10, 100]
+            rs = sorted(set([lo + k / Nm for k in ks] + [hi - k / Nm for k in ks]
+                            + [hi - 1e-5, hi - 3e-6, hi - 1e-7, lo + 1e-5, lo + 1e-8, (lo + hi) / 2,
+                               lo + (hi - lo) / 3]))
+            rs = np.asarray([r for r in rs if lo <= r <= hi])
+            t = np.asarray(getattr(o, "threshold_at_" + mt)(rs), dtype=float)
+            c = np.asarray(getattr(o, mt)(t), dtype=float)
+            err = np.abs(c - rs) * Nm
+            j = int(np.argmax(err))
+            require(err[j] <= 1.0 + 1e-3, "ts:roundtrip",
+                    lambda: f"n={n} m={m} ep={ep} en={en} metric={mt} config={sc}/{ec} r={rs[j]!r}: threshold "
+                            f"{t[j]!r} gives {c[j]!r}, off by {err[j]:.3f} samples of 1/{Nm}")
+            d = np.diff(t)
+            incr = (mt in INCREASING) == (sc == "pos")
+            require(not (bool(np.any(d < 0)) if incr else bool(np.any(d > 0))), "ts:not-monotone",
+                    f"n={n} m={m} metric={mt} config={sc}/{ec}")
+    return dict(nontrivial=True, labels=["large-n"])
+
+
 PROP = Prop(
     id="C02",
     rule=("Hypothesis: score sets (modes grid/dyadic/int with ties, 'distinct' tie-free with "
@@ -204,6 +245,8 @@ PROP = Prop(
         Clause("round_trip_coherence", check, strategy=lambda tier: _cases(10 if tier == "quick" else 30), quick=350, thorough=7500,
                quick_shards=4, min_nontrivial=100,
                doc="round trip within one sample; lower/higher/linear coherence; monotone; aliases"),
+        Clause("large_n", check_large, kind="enum", cases=_large_cases, quick_shards=4, shards=10,
+               min_nontrivial=2, doc="2e5-1e6 scores per class: round trip within one sample near the ends"),
         Clause("rejections", check_invalid, strategy=_invalid_cases, quick=40, thorough=100,
                shards=1, min_nontrivial=5, doc="unknown method / empty class raise ValueError"),
     ],
